@@ -169,6 +169,7 @@ type conn struct {
 	altR   *sshref.Reader         // diagnostic: CBC+EtM framed as encrypt-and-MAC
 	refW   *sshref.Writer         // reference writer
 	realR2 *ssh.VerifPacketCipher // real reader of the reference writer's bytes
+	raw    bool                   // built from caller-chosen keys (no key derivation); see keys
 }
 
 // newReal instantiates one real packet cipher for the connection parameters.
